@@ -99,6 +99,7 @@ type endPoint struct {
 	stream        Stream
 	handlers      []*Handler
 	handlersMutex sync.Mutex
+	closed        bool
 }
 
 // EndPointFinalizer creates a new EndPoint and let you process it
@@ -236,6 +237,7 @@ func (e *endPoint) closeWith(err error) error {
 	e.handlersMutex.Lock()
 	defer e.handlersMutex.Unlock()
 
+	e.closed = true
 	for id, handler := range e.handlers {
 		if handler != nil {
 			go handler.closeWith(err)
@@ -270,6 +272,14 @@ func (e *endPoint) MakeHandler(f Filter, queue chan<- *Message, cl Closer) int {
 	newHandler := NewHandler(f, queue, cl)
 	e.handlersMutex.Lock()
 	defer e.handlersMutex.Unlock()
+	if e.closed {
+		// nothing will ever close a handler registered after
+		// the end of the connection, and its slot may be the one
+		// a closer still running refers to: close it right
+		// away and return an identifier which is not in use.
+		go newHandler.closeWith(ErrEndPointClosed)
+		return -1
+	}
 	for i, handler := range e.handlers {
 		if handler == nil {
 			e.handlers[i] = newHandler
@@ -295,6 +305,10 @@ func (e *endPoint) AddHandler(f Filter, c Consumer, cl Closer) int {
 	}()
 	return e.MakeHandler(f, ch, cl)
 }
+
+// ErrEndPointClosed is given to the closer of a handler registered
+// after the end of the connection.
+var ErrEndPointClosed = errors.New("endpoint closed")
 
 // ErrNoMatch is returned when the message did not match any handler
 var ErrNoMatch = errors.New("message dropped: no handler match")
